@@ -69,6 +69,27 @@ Proof.
       * specialize (IH (pexit p) false). destruct (trypipe_loop (pexit p) false (q :: ps')). cbn in *. lia.
 Qed.
 
+Lemma strict_loop_length chk every ps : forall o s c e sk,
+  length (fst (strict_loop chk every o s c e sk ps)) = length ps.
+Proof.
+  induction ps as [|p ps IH]; intros o s c e sk; [reflexivity|].
+  cbn [strict_loop]. destruct (sk && (p_or p || p_method p)).
+  - specialize (IH o s [] e true). destruct (strict_loop chk every o s [] e true ps). cbn in *. lia.
+  - destruct ps as [|q ps']; [reflexivity|].
+    destruct (p_method q && negb every).
+    + match goal with |- context [strict_loop chk every ?a ?b ?c ?d false (q :: ps')] =>
+        specialize (IH a b c d false); destruct (strict_loop chk every a b c d false (q :: ps')) end.
+      cbn in *. lia.
+    + match goal with |- context [if ?c1 then _ else if ?c2 then _ else _] => destruct c1; [|destruct c2] end.
+      * match goal with |- context [strict_loop chk every ?a ?b ?c ?d true (q :: ps')] =>
+          specialize (IH a b c d true); destruct (strict_loop chk every a b c d true (q :: ps')) end.
+        cbn in *. lia.
+      * cbn [fst length]. rewrite falses_length. reflexivity.
+      * match goal with |- context [strict_loop chk every ?a ?b ?c ?d false (q :: ps')] =>
+          specialize (IH a b c d false); destruct (strict_loop chk every a b c d false (q :: ps')) end.
+        cbn in *. lia.
+Qed.
+
 Lemma execute_length m ps : length (fst (execute m ps)) = length ps.
 Proof.
   unfold execute. destruct ps as [|p ps]; [reflexivity|].
@@ -81,8 +102,8 @@ Proof.
     destruct (normal_loop true (pexit p) false ps). cbn in *. lia.
   - apply try_loop_length.
   - apply trypipe_loop_length.
-  - apply try_loop_length.
-  - apply trypipe_loop_length.
+  - apply strict_loop_length.
+  - apply strict_loop_length.
 Qed.
 
 (* all_released_normal / _try / _trypipe: whatever the flags and exit numbers,
